@@ -44,7 +44,7 @@ def build(targets, variant="rel", extra_cmake=()):
     """(Re)build harness executables + celeritas libs from /repo's current working tree."""
     bdir = os.path.join(BUILDROOT, variant)
     os.makedirs(bdir, exist_ok=True)
-    lock = open(os.path.join(BUILDROOT, ".lock"), "w")
+    lock = open(os.path.join(BUILDROOT, ".lock_" + variant), "w")
     fcntl.flock(lock, fcntl.LOCK_EX)
     try:
         t0 = time.time()
